@@ -25,7 +25,7 @@ import (
 )
 
 func init() {
-	pbt.Describe("file sets with distinct names (spaces, Unicode, leading '-', names containing '<hex64>  x' fragments that imitate summary lines, names with newline), small contents, generated listing orders, sets padded to 50-1000 names (around 64/128/256) in 1 case of 12, contents delivered through short-read readers, a failing hash call before the checked one; confusable pairs (bytes moved between a name and its content, contents swapped, names fused, one file split in two); real directory trees and zip archives written by the harness (archive/zip, Store or Deflate, arbitrary metadata), and module zips produced by zip.Create then extracted by zip.Unzip. Oracle: formula recomputed by the harness (sha256/hex/base64 called directly), permutation invariance, newline refusal, distinct sets => distinct hashes, HashZip == HashDir of the extraction. Non-trivial: >=2 files and a non-identity permutation, or a confusable pair, or a zip/dir with >=2 files. Distinct by JSON rendering. (modzip: the optional large file has 32 KiB+1 ... 1 MiB, compressible or not.)",
+	pbt.Describe("file sets with distinct names (spaces, Unicode, leading '-', names containing '<hex64>  x' fragments that imitate summary lines, names with newline), small contents, generated listing orders, sets padded to 50-1000 names (around 64/128/256) in 1 case of 12, contents delivered through short-read readers, a failing hash call before the checked one; confusable pairs (bytes moved between a name and its content, contents swapped, names fused, one file split in two); real directory trees and zip archives written by the harness (archive/zip, Store or Deflate, arbitrary metadata), and module zips produced by zip.Create then extracted by zip.Unzip. Oracle: formula recomputed by the harness (sha256/hex/base64 called directly), permutation invariance, newline refusal, distinct sets => distinct hashes, HashZip == HashDir of the extraction. Non-trivial: >=2 files and a non-identity permutation, or a confusable pair, or a zip/dir with >=2 files. Distinct by JSON rendering. (modzip: the optional large file has 32 KiB+1 ... 1 MiB, compressible or not.) 15% of the module lists hold a file named after another file plus a work-file suffix (.tmp, ~, .bak, ...), anywhere in the list.",
 		"SHA-256 is collision-free on the generated inputs", "file sets have distinct names (the property speaks of sets)")
 }
 
@@ -684,6 +684,9 @@ func TestReplay(t *testing.T) { pbt.Replay(t, append(subs, extraSubs...)) }
 
 func genModZip(t *rapid.T) zipgen.ListCase {
 	c := zipgen.GenList(t, false) // mild lists: they usually pass the file check
+	if gen.Chance(t, 15, "scratchname") {
+		zipgen.AddScratchName(t, &c)
+	}
 	if rapid.IntRange(0, 5).Draw(t, "bigfile") == 0 {
 		// (beyond copy buffers of 32, 64, 128 and 256 KiB and 1 MiB; compressible content has a compressed size far below any of them)
 		n := []int{32769, 40000, 70000, 131073, 262144, 262145, 300000, 700000, 1 << 20}[gen.Uniform(t, 9, "bigsize")]
